@@ -35,9 +35,9 @@ use self::delete::*;
 use self::drop::*;
 pub use self::error::Error as ExecutorError;
 use self::error::*;
-use self::evaluator::*;
 #[cfg(feature = "verif")]
 pub use self::evaluator::Evaluator as VerifEvaluator;
+use self::evaluator::*;
 use self::explain::*;
 use self::filter::*;
 use self::hash_agg::*;
@@ -275,8 +275,8 @@ impl<S: Storage> Builder<S> {
                     // A condition pushed into the scan that does not denote a key range (e.g. a
                     // contradictory range folded to `false`) cannot be handed to the storage
                     // engine: evaluate it on the scanned rows instead of dropping it.
-                    let residual =
-                        (filter.is_none() && self.node(filter_id) != &Expr::true_()).then_some(filter_id);
+                    let residual = (filter.is_none() && self.node(filter_id) != &Expr::true_())
+                        .then_some(filter_id);
                     let scan = TableScanExecutor {
                         table_id,
                         columns,
@@ -567,7 +567,9 @@ impl<S: Storage> Builder<S> {
                             Some(false) => {
                                 // an executor that fails yields its error and ends its stream
                                 let _ = tx
-                                    .broadcast(Err(std::io::Error::other("verif: injected error").into()))
+                                    .broadcast(Err(
+                                        std::io::Error::other("verif: injected error").into()
+                                    ))
                                     .await;
                                 break;
                             }
